@@ -95,10 +95,14 @@ func walk[S, T any](ctx context.Context, g *graph[S], t *traversal[S, T]) error 
 		eg.SetLimit(t.maxConcurrency + 1)
 	}
 
+	// closed once walk has started the last visit it starts itself
+	started := make(chan struct{})
 	eg.Go(func() error {
 		for {
 			select {
 			case <-ctx.Done():
+				// this goroutine counts in the limit: it keeps its slot as long as walk may still start a visit
+				<-started
 				return nil
 			case node := <-nodeCh:
 				expect--
@@ -117,6 +121,7 @@ func walk[S, T any](ctx context.Context, g *graph[S], t *traversal[S, T]) error 
 	for _, node := range t.extremityNodes(g) {
 		t.visit(ctx, eg, node, nodeCh)
 	}
+	close(started)
 
 	return eg.Wait()
 }
